@@ -2,7 +2,7 @@
    Property theorems only; proofs live in Lemmas/.  `ev` is the evaluator of ANY inner parser. *)
 From Coq Require Import String.
 From BpafModel Require Import Message.
-From BpafLemmas Require Import Tac CatchLaws MessageLaws.
+From BpafLemmas Require Import Tac CatchLaws MessageLaws MsgOk.
 
 (* The catchable ("absent") messages are exactly these six; the table is regenerated from
    src/error.rs on every run, so this theorem is re-checked against the code. *)
@@ -126,6 +126,25 @@ Theorem C06_message_kinds_kept :
 Proof. exact pre_render_keeps. Qed.
 Print Assumptions C06_message_kinds_kept.
 
+(* ... end to end for a command level: when its parser fails with a conversion / `parse` / guard failure (which the
+   wrappers above hand on unchanged), a run of the level that ends on stderr reports exactly that message -- help and
+   version requests and `fallback_to_usage` end on stdout instead -- and the document the failure carries (what
+   Message::render built at that level) ends with the conversion error text / the guard's message *)
+Theorem C06_failed_value_text_on_stderr :
+  forall env q inf s s1 e m dd s2,
+    eval env q s = (RErr e, s1) ->
+    match e with MsgParseFailed _ _ | MsgGuardFailed _ _ => True | _ => False end ->
+    run_sub env (Options q inf) s = (SFail (FStderr m dd), s2) ->
+    m = e /\
+    exists d, dd = Some d /\
+              match e with
+              | MsgParseFailed _ t => exists pre, doc_text d = pre ++ m_colon_sp ++ t
+              | MsgGuardFailed _ t => exists pre, doc_text d = pre ++ t
+              | _ => True
+              end.
+Proof. exact level_reports_failed_value. Qed.
+Print Assumptions C06_failed_value_text_on_stderr.
+
 (* non-vacuity: `--num x` under optional + fallback fails with the conversion text *)
 Example C06_example :
   let p := PFallback (POptional (PArg (mkNamed [] [[110;117;109]%N] [] None) [78%N] TyU32 false) false) VNone [] in
@@ -137,8 +156,8 @@ Proof. eexists. vm_compute. reflexivity. Qed.
 Example C06_example_text :
   let p := PFallback (POptional (PArg (mkNamed [] [[110;117;109]%N] [] None) [78%N] TyU32 false) false) VNone [] in
   match run_inner_state (mkFeat true true false) (fun _ => None) (Options p default_info) None [[45;45;110;117;109]%N; [120]%N] with
-  | (SFail (FStderr m), s') =>
-    option_map utf8_encode (render_message_text true m s' (meta_of p)) =
+  | (SFail (FStderr m (Some d)), s') =>
+    option_map utf8_encode (render_doc_text true d) =
     Some (bs "couldn't parse `x`: invalid digit found in string"%string)
   | _ => False
   end.
